@@ -1577,6 +1577,14 @@ func FuncArgReader(query *Query, current Map, selectExprs []sqlparser.Expr, opts
 		if err != nil {
 			return nil, err
 		}
+		// a call that yields no column (SETVAR, SPIN, ...) has no value either
+		if _, ok := value.(Ommit); ok {
+			value = nil
+		}
+		// only a select item can be fused; anywhere else the object itself is the value
+		if fuse, ok := value.(Fuse); ok {
+			value = map[string]any(fuse)
+		}
 		slice = append(slice, value)
 	}
 	return slice, nil
